@@ -820,10 +820,10 @@ func TestVerifC18Sweep(t *testing.T) {
 			t.Fatal(err)
 		}
 	}()
-	res.Rule = "one case = one seeded schedule (random Ed25519/secp256k1/ECDSA host key, start instant at millisecond granularity, 14 advances of arbitrary length or aimed 1 ms / 1 s around the next expected roll, restarts) on the real certManager with a never-restarted companion; only the statement's monitors decide"
-	n := 60
+	res.Rule = "one case = one seeded schedule (random Ed25519/secp256k1/ECDSA host key, start instant at millisecond granularity, 14 advances of arbitrary length (up to 200 days) or aimed 1 ms / 1 s around the next expected roll, restarts) on the real certManager with a never-restarted companion; only the statement's monitors decide"
+	n := 200
 	if vfh.Thorough() {
-		n = 600
+		n = 2000
 	}
 	seed := vfh.Seed()
 	var mu sync.Mutex
@@ -840,10 +840,19 @@ func TestVerifC18Sweep(t *testing.T) {
 					var priv ic.PrivKey
 					var err error
 					switch i % 7 {
-					case 5:
-						priv, _, err = ic.GenerateSecp256k1Key(crand.Reader) // offset from the compressed point
-					case 6:
-						priv, _, err = ic.GenerateECDSAKeyPair(crand.Reader) // offset from the DER prefix (constant)
+					case 5: // offset from the compressed point; key from the seeded stream
+						b := make([]byte, 32)
+						rnd.Read(b)
+						b[0] &= 0x7f
+						priv, err = ic.UnmarshalSecp256k1PrivateKey(b)
+					case 6: // offset from the DER prefix (constant); scalar from the seeded stream
+						b := make([]byte, 32)
+						rnd.Read(b)
+						b[0] &= 0x7f
+						k := &ecdsa.PrivateKey{D: new(big.Int).SetBytes(b)}
+						k.PublicKey.Curve = elliptic.P256()
+						k.PublicKey.X, k.PublicKey.Y = elliptic.P256().ScalarBaseMult(b)
+						priv, _, err = ic.ECDSAKeyPairFromKey(k)
 					default:
 						priv, _, err = ic.GenerateEd25519Key(rnd)
 					}
@@ -856,7 +865,7 @@ func TestVerifC18Sweep(t *testing.T) {
 					}
 					var start time.Time
 					if mode == "real" {
-						start = time.Date(2000, 1, 20, 0, 0, 0, 0, time.UTC).Add(time.Duration(rnd.Int63n(int64(60 * 24 * time.Hour / time.Millisecond))) * time.Millisecond)
+						start = time.Date(2000, 1, 20, 0, 0, 0, 0, time.UTC).Add(time.Duration(rnd.Int63n(int64(60*24*time.Hour/time.Millisecond))) * time.Millisecond)
 					} else {
 						start = time.Date(2001, 1, 1, 0, 0, 0, 0, time.UTC).Add(time.Duration(rnd.Int63n(int64(40*365*24*time.Hour/time.Millisecond))) * time.Millisecond)
 					}
@@ -876,8 +885,12 @@ func TestVerifC18Sweep(t *testing.T) {
 						for j := 0; j < 14 && len(s.issues) == 0; j++ {
 							var d time.Duration
 							switch rnd.Intn(4) {
-							case 0: // anywhere within 40 days
-								d = time.Duration(rnd.Int63n(int64(40*24*time.Hour/time.Millisecond))) * time.Millisecond
+							case 0: // anywhere within 40 days (now and then 200 days: many rolls in one move)
+								span := 40 * 24 * time.Hour
+								if rnd.Intn(6) == 0 {
+									span = 200 * 24 * time.Hour
+								}
+								d = time.Duration(rnd.Int63n(int64(span/time.Millisecond))) * time.Millisecond
 							case 1: // within two hours
 								d = time.Duration(rnd.Int63n(int64(2*time.Hour/time.Millisecond))) * time.Millisecond
 							default: // around the instant at which the continuous manager's certificate has one skew left
@@ -1332,12 +1345,20 @@ func TestVerifC18Dial(t *testing.T) {
 	cur, next := cmgr.currentConfig.sha256, cmgr.nextConfig.sha256
 	orig := append([][]byte{}, cmgr.serializedCertHashes...)
 	cmgr.mx.RUnlock()
-	// for the "dialchain" rows the server presents <<current, next>>: server certificate = current (its key signs
-	// the handshake), followed by another certificate
+	// for the "dialchain" rows the server presents <<current, other>>: server certificate = current (its key signs
+	// the handshake), followed by another, currently valid certificate whose hash is "bogus"
 	plainConf := cmgr.currentConfig
 	cc := plainConf.tlsConf.Clone()
 	pc := plainConf.tlsConf.Certificates[0]
-	cc.Certificates = []tls.Certificate{{Certificate: [][]byte{pc.Certificate[0], cmgr.nextConfig.tlsConf.Certificates[0].Certificate[0]}, PrivateKey: pc.PrivateKey, Leaf: pc.Leaf}}
+	otherKey, _, err := ic.GenerateEd25519Key(crand.Reader)
+	if err != nil {
+		t.Fatal(err)
+	}
+	other, _, err := generateCert(otherKey, pc.Leaf.NotBefore, pc.Leaf.NotAfter) // somebody else's currently valid certificate
+	if err != nil {
+		t.Fatal(err)
+	}
+	cc.Certificates = []tls.Certificate{{Certificate: [][]byte{pc.Certificate[0], other.Raw}, PrivateKey: pc.PrivateKey, Leaf: pc.Leaf}}
 	chainConf := &certConfig{tlsConf: cc, sha256: plainConf.sha256}
 	defer func() {
 		cmgr.mx.Lock()
@@ -1345,7 +1366,7 @@ func TestVerifC18Dial(t *testing.T) {
 		cmgr.currentConfig = plainConf
 		cmgr.mx.Unlock()
 	}()
-	bogus := sha256.Sum256([]byte("verif bogus dial"))
+	bogus := sha256.Sum256(other.Raw) // "bogus" = the hash of that other certificate: never the served one
 	enc := map[string][]byte{
 		"cur":   vfC18Mh(cur[:], multihash.SHA2_256),
 		"next":  vfC18Mh(next[:], multihash.SHA2_256),
@@ -1424,7 +1445,7 @@ func TestVerifC18Dial(t *testing.T) {
 				exp := op.B("completes")
 				cfg := map[string]any{"used": used, "server_early_data": list, "served": "cur"}
 				if chainRow {
-					cfg["served"] = "chain <<cur, next>>"
+					cfg["served"] = "chain <<cur, other certificate with hash bogus>>"
 					allowed := map[bool]bool{}
 					for _, a := range op.L("allowed") {
 						if b, ok := a.(bool); ok {
